@@ -2645,7 +2645,10 @@ impl Interpreter {
             // Set prototype.constructor = function
             proto_obj
                 .borrow_mut()
-                .set_property(ctor_key, JsValue::Object(func_obj.cheap_clone()));
+                .define_property(
+            ctor_key,
+            crate::value::Property::with_attributes(JsValue::Object(func_obj.cheap_clone()), true, false, true),
+        );
             // Set function.prototype = prototype object
             func_obj
                 .borrow_mut()
